@@ -146,3 +146,12 @@ package xreq
 //@ func (*socket).SendMsg
 //@   ghost cl = s.closed at call:Lock#1
 //@   ensures cl ==> result == protocol.ErrClosed
+
+// ---- generated wrapper contracts (tools/gen_wrapper_contracts.py) ----
+//@ func NewSocket
+//@   ghost pr = result at call:NewProtocol#1
+//@   ghost so = result at call:MakeSocket#1
+//@   before call:NewProtocol#1 assert callee_is("protocol/xreq.NewProtocol")
+//@   before call:MakeSocket#1 assert arg0 == pr
+//@   ensures isnil(result1) && result0 == so
+// ---- end generated wrapper contracts ----
